@@ -520,8 +520,9 @@ func (fr *Frame) goEqual(st *State, n ast.Node, a, b Val) string {
 		return v.T
 	}
 	if nn, ok := isFixedSort(a.S); ok {
-		x.u.fact(extInstance(nn, a.T, b.T))
+		return fmt.Sprintf("(eq%d %s %s)", nn, a.T, b.T)
 	}
+	_ = x
 	if strings.HasPrefix(a.S, "S_") {
 		// struct equality is field-wise: datatype equality is exact except for nested
 		// fixed arrays, handled by their own extensionality when compared directly.
